@@ -97,6 +97,7 @@ static void* arena_alloc(size_t size, size_t align) {
   for (size_t g = 0; g < need / GRAN; g++) { shadow[g0 + g] = 1; blkid[g0 + g] = id; }
   return (void*)start;
 }
+static void race_free(const void* p, size_t need, void* pc);
 static void arena_free(void* p) {
   if (!p) return;
   if (!in_arena(p)) return; // not ours (never happens for operator new memory)
@@ -112,6 +113,7 @@ static void arena_free(void* p) {
   if (!g_in_child && need == parent_class_size(parent_class(need)) && shadow[g0] == 1 && hdr == (size_t*)(((uintptr_t)hdr + GRAN - 1) & ~(uintptr_t)(GRAN - 1))) {
     int c = parent_class(need); *(void**)p = parent_free[c]; parent_free[c] = p; return;
   }
+  race_free(p, need, __builtin_return_address(0));
   for (size_t g = 0; g < need / GRAN; g++) shadow[g0 + g] = 2;
   memset(p, 0xDD, need);
 }
@@ -123,6 +125,9 @@ uint32_t block_of(const void* p) {
 // ------------------------------------------------------------------------------------------
 // child-side state
 // ------------------------------------------------------------------------------------------
+// set while runtime code runs: template code shared with the instrumented driver (COMDAT folding) must not be taken for the code under test
+static thread_local int race_busy = 0;
+struct RaceBusy { RaceBusy() { race_busy++; } ~RaceBusy() { race_busy--; } };
 static constexpr int MAXT = 8;
 enum Status { RUNNABLE = 0, PARKED = 1, BLOCKED = 2, DONE = 3, WAITSTART = 4 };
 static int start_after[8];
@@ -184,6 +189,7 @@ static void logf(const char* fmt, ...) {
 static void write_all(int fd, const char* p, size_t n) { while (n) { ssize_t w = write(fd, p, n); if (w <= 0) break; p += w; n -= (size_t)w; } }
 
 [[noreturn]] static void finish_child(const char* outcome, long info) {
+  RaceBusy rb_;
   // may be called from any thread or a signal handler; first caller wins
   static std::atomic<int> once{0};
   if (once.fetch_add(1) != 0) { for (;;) pause(); }
@@ -312,6 +318,7 @@ enum Kind { K_READ = 0, K_WRITE = 1, K_FENCE = 2, K_YIELD = 3, K_MUTEX = 4, K_CH
 
 // called before every intercepted atomic access by a client thread
 static void sched_point(int kind, const void* addr, uint64_t val_hint) {
+  RaceBusy rb_;
   if (!active || my_tid < 0) return;
   int me = my_tid;
   if (++steps > max_steps) finish_child("steplimit", steps);
@@ -323,6 +330,7 @@ static void sched_point(int kind, const void* addr, uint64_t val_hint) {
 
 // after the access: spin bookkeeping
 static void after_access(int kind, const void* addr, uint64_t val) {
+  RaceBusy rb_;
   if (!active || my_tid < 0) return;
   int me = my_tid;
   if (kind == K_WRITE) { write_epoch++; allparked_rounds = 0; spin_n[me] = 0; solo_wakes = 0; return; }
@@ -357,17 +365,20 @@ bool in_child() { return g_in_child; }
 bool weak_mode() { return weakW > 0; }
 static inline long clampv(long x) { return (x > 1000000000L || x < -1000000000L) ? -999999999L : x; }
 void ev(const char* e, const char* op, long a, long b, long r, long v) {
+  RaceBusy rb_;
   if (!g_in_child) return;
   a = clampv(a); b = clampv(b); r = clampv(r); v = clampv(v);
   logf("{\"e\":\"%s\",\"t\":%d,\"op\":\"%s\",\"a\":%ld,\"b\":%ld,\"r\":%ld,\"v\":%ld}\n", e, tid(), op, a, b, r, v);
 }
 void call_blocking(const char* op, long a, long b) { call(op, a, b); op_blocking[tid()] = true; }
 void call(const char* op, long a, long b) {
+  RaceBusy rb_;
   int t = tid();
   { cur_op[t] = op; in_op[t] = true; op_blocking[t] = false; }
   ev("call", op, a, b, 0, 0);
 }
 void ret(long r, long v) {
+  RaceBusy rb_;
   int t = tid();
   ev("ret", cur_op[t] ? cur_op[t] : "none", 0, 0, r, v);
   in_op[t] = false;
@@ -386,6 +397,7 @@ void dump_alloc_sites() {
 }
 void point() { sched_point(K_FENCE, nullptr, 0); }
 long choose(long n) {
+  RaceBusy rb_;
   if (!active || my_tid < 0 || n <= 1) return 0;
   // a recorded decision that does not count as a preemption
   long c = 0;
@@ -400,6 +412,7 @@ long choose(long n) {
 
 struct Sentinel {
   ~Sentinel() {
+    RaceBusy rb_;
     if (my_tid >= 0 && active) {
       int me = my_tid;
       status[me] = DONE; write_epoch++;     // wakes threads parked in a harness wait (thread_done)
@@ -415,6 +428,7 @@ static thread_local Sentinel sentinel;
 void track_thread() { (void)&sentinel; }
 bool thread_done(int t) { return t >= 0 && t < nthreads && status[t] == DONE; }
 static void harness_wait(int kind, int arg) {
+  RaceBusy rb_;
   if (!active || my_tid < 0) return;
   int me = my_tid;
   for (;;) {
@@ -424,9 +438,6 @@ static void harness_wait(int kind, int arg) {
     int next = pick(me); switch_to(next, me);
   }
 }
-void sync_set(int i) { hflags[i & 15] = 1; }
-void sync_wait(int i) { harness_wait(1, i); }
-void wait_exit(int t) { harness_wait(2, t); }
 
 // ------------------------------------------------------------------------------------------
 // step-level events and memory model
@@ -460,6 +471,123 @@ static void uaf(const void* a, const char* what, void* pc, void* fp) {
     else logf("{\"e\":\"uaf\",\"t\":%d,\"op\":\"%s\",\"a\":%u,\"b\":%ld,\"r\":0,\"v\":0}\n", tid(), what, block_of(a), (long)((uintptr_t)a & 0xfff));
   }
 }
+
+// ------------------------------------------------------------------------------------------
+// happens-before race detection (--race): vector clocks driven by the memory orders and fences the code declares.
+// Executions are sequentially consistent interleavings (every load reads the latest store), so this does not explore stale
+// values; it decides, for each explored interleaving, whether conflicting plain accesses (and frees) are ordered by
+// happens-before as C++11 defines it: release/acquire on the same atomic, release sequences through read-modify-writes,
+// fence-fence / fence-atomic synchronization, seq_cst as acquire+release joined with a global clock (an over-approximation of
+// synchronization: it can hide a race, never invent one), mutexes, thread start / join, harness-level waits.
+// ------------------------------------------------------------------------------------------
+static bool race_on = false;
+static constexpr int NTV = MAXT + 1;                 // index MAXT: the main thread
+struct VC { int c[NTV]; };
+static VC Cv[NTV], Frel[NTV], Facq[NTV], SCV, Fsync[16];
+static std::unordered_map<const void*, VC>* Msg = nullptr;      // per atomic location / mutex: the view its latest store released
+struct PAcc { int8_t tid; uint8_t off, size, flags; int clk; void* pc; };   // flags: 1 write, 2 atomic
+struct PWord { PAcc a[6]; int n; };
+static std::unordered_map<uintptr_t, PWord>* Sh = nullptr;
+static int race_ignore[NTV];
+static int races_reported = 0;
+static inline int rtid() { return my_tid >= 0 && my_tid < MAXT ? my_tid : MAXT; }
+static inline void vjoin(VC& a, const VC& b) { for (int i = 0; i < NTV; i++) if (b.c[i] > a.c[i]) a.c[i] = b.c[i]; }
+static void race_init() {
+  memset(Cv, 0, sizeof Cv); memset(Frel, 0, sizeof Frel); memset(Facq, 0, sizeof Facq); memset(&SCV, 0, sizeof SCV); memset(Fsync, 0, sizeof Fsync);
+  for (int i = 0; i < NTV; i++) Cv[i].c[i] = 1;
+  RaceBusy rb;
+  Msg = new std::unordered_map<const void*, VC>(); Sh = new std::unordered_map<uintptr_t, PWord>();
+}
+static void race_thread_start(int t, int after) {
+  if (!race_on) return;
+  vjoin(Cv[t], Cv[MAXT]); if (after >= 0) vjoin(Cv[t], Cv[after]);
+}
+static void race_join_all(int n) { if (race_on) for (int t = 0; t < n; t++) vjoin(Cv[MAXT], Cv[t]); }
+static void race_report(const char* what, const void* a, const PAcc& o, void* pc) {
+  if (races_reported++ >= 4) return;
+  // pc list: the earlier access, then the call stack of the current one (frame-pointer walk from the hook's caller)
+  char stk[256]; int n = snprintf(stk, sizeof stk, "%lx,%lx", (unsigned long)o.pc, (unsigned long)pc);
+  void** f = (void**)__builtin_frame_address(0);
+  for (int d = 0; d < 12 && f && n < 220; d++) {
+    void* ra = f[1]; void** nf = (void**)f[0];
+    if (!ra) break;
+    if (d >= 2) n += snprintf(stk + n, sizeof stk - (size_t)n, ",%lx", (unsigned long)ra);
+    if (nf <= f || (char*)nf - (char*)f > (1 << 20)) break;
+    f = nf;
+  }
+  logf("{\"e\":\"race\",\"t\":%d,\"op\":\"%s\",\"a\":%u,\"b\":%d,\"r\":%ld,\"v\":%d,\"pc\":\"%s\"}\n", tid(), what, block_of(a), (int)o.tid,
+       (long)((uintptr_t)a & 0xfff), (int)o.flags, stk);
+}
+// record an access of [a, a+size) and check it against earlier conflicting accesses of other threads that do not happen before it
+static void race_access(const void* a, size_t size, int flags, void* pc, bool record = true) {
+  if (!race_on || !g_in_child || !Sh || race_busy || !in_arena(a)) return;
+  RaceBusy rb;
+  int t = rtid();
+  if (race_ignore[t]) return;
+  uintptr_t p = (uintptr_t)a, e = p + size;
+  for (uintptr_t w = p >> 3; (w << 3) < e; w++) {
+    uintptr_t lo = p > (w << 3) ? p : (w << 3), hi = e < ((w + 1) << 3) ? e : ((w + 1) << 3);
+    uint8_t off = (uint8_t)(lo - (w << 3)), sz = (uint8_t)(hi - lo);
+    auto it = Sh->find(w);
+    if (it == Sh->end()) { if (!record) continue; it = Sh->emplace(w, PWord{}).first; }
+    PWord& W = it->second;
+    int same = -1;
+    for (int i = 0; i < W.n; i++) {
+      PAcc& o = W.a[i];
+      if (o.tid == t) { if (o.off == off && o.size == sz && o.flags == (uint8_t)flags) same = i; continue; }
+      if (!((flags | o.flags) & 1)) continue;                      // two reads
+      if (((flags | o.flags) & 2) && !(flags & 4)) continue;       // an atomic access conflicts with a free only (the plain
+                                                                   // initialisation of an atomic object is not a plain object's access)
+      if (o.off + o.size <= off || off + sz <= o.off) continue;    // disjoint bytes
+      if (o.clk <= Cv[t].c[(int)o.tid]) continue;                  // happens before
+      race_report((flags & 4) ? "free" : (flags & 1) ? ((flags & 2) ? "awr" : "wr") : ((flags & 2) ? "ard" : "rd"), (const void*)lo, o, pc);
+    }
+    if (!record) continue;
+    PAcc na{(int8_t)t, off, sz, (uint8_t)(flags & 3), Cv[t].c[t], pc};
+    if (same >= 0) W.a[same] = na;
+    else if (W.n < 6) W.a[W.n++] = na;
+    else { memmove(&W.a[0], &W.a[1], sizeof(PAcc) * 5); W.a[5] = na; }
+  }
+}
+static void race_free(const void* p, size_t need, void* pc) {
+  if (!race_on || !g_in_child) return;
+  race_access(p, need, 1 | 4, pc, false);
+}
+enum { RA_LOAD = 0, RA_STORE = 1, RA_RMW = 2 };
+static inline bool mo_acq(int mo) { return mo == 1 || mo == 2 || mo == 4 || mo == 5; }   // consume counts as acquire
+static inline bool mo_rel(int mo) { return mo == 3 || mo == 4 || mo == 5; }
+static void race_atomic(const void* a, size_t size, int kind, int mo, void* pc) {
+  if (!race_on || !g_in_child || !Msg || race_busy) return;
+  int t = rtid();
+  if (race_ignore[t]) return;
+  race_access(a, size, 2 | (kind != RA_LOAD ? 1 : 0), pc);
+  RaceBusy rb;
+  VC& m = (*Msg)[a];
+  if (mo == 5) vjoin(Cv[t], SCV);
+  if (kind != RA_STORE) { if (mo_acq(mo)) vjoin(Cv[t], m); else vjoin(Facq[t], m); }
+  if (kind == RA_STORE) m = mo_rel(mo) ? Cv[t] : Frel[t];
+  else if (kind == RA_RMW) vjoin(m, mo_rel(mo) ? Cv[t] : Frel[t]);      // continues the release sequence
+  if (mo == 5) vjoin(SCV, Cv[t]);
+  if (kind != RA_LOAD) Cv[t].c[t]++;
+}
+static void race_fence(int mo) {
+  if (!race_on || !g_in_child || !Msg) return;
+  int t = rtid();
+  if (mo == 5) vjoin(Cv[t], SCV);
+  if (mo_acq(mo)) vjoin(Cv[t], Facq[t]);
+  if (mo_rel(mo)) Frel[t] = Cv[t];
+  if (mo == 5) vjoin(SCV, Cv[t]);
+  Cv[t].c[t]++;
+}
+static void race_lock(const void* m) { if (race_on && g_in_child && Msg) { RaceBusy rb; vjoin(Cv[rtid()], (*Msg)[m]); } }
+static void race_unlock(const void* m) { if (race_on && g_in_child && Msg) { RaceBusy rb; int t = rtid(); (*Msg)[m] = Cv[t]; Cv[t].c[t]++; } }
+// harness-level ordering also orders the threads for the race detector (a real program would use a flag or join here)
+void sync_set(int i) { hflags[i & 15] = 1; if (race_on) { int t = rtid(); vjoin(Fsync[i & 15], Cv[t]); Cv[t].c[t]++; } }
+void sync_wait(int i) { harness_wait(1, i); if (race_on) vjoin(Cv[rtid()], Fsync[i & 15]); }
+void wait_exit(int t) { harness_wait(2, t); if (race_on && t >= 0 && t < MAXT) vjoin(Cv[rtid()], Cv[t]); }
+void race_ignore_begin() { race_ignore[rtid()]++; }
+void race_ignore_end() { race_ignore[rtid()]--; }
+
 #define chk(a, what) chk_((a), (what), __builtin_return_address(0), __builtin_frame_address(0))
 static inline void chk_(const void* a, const char* what, void* pc, void* fp) {
   if (!g_in_child) return;
@@ -470,6 +598,7 @@ struct NamedRange { uintptr_t base; size_t elem, count; long first; };
 static NamedRange named[8]; static int n_named = 0;
 void name_range(const void* base, size_t elem, size_t count, long firstid) { if (n_named < 8) named[n_named++] = {(uintptr_t)base, elem, count, firstid}; }
 static void step_ev(const char* kind, const void* a, uint64_t v, int mo, int ok, void* pc) {
+  RaceBusy rb_;
   if (!log_steps || !active || my_tid < 0) return;
   long vv; long vp = 0;
   for (int i = 0; i < n_named; i++) if (v >= named[i].base && v < named[i].base + named[i].elem * named[i].count) {
@@ -496,80 +625,82 @@ void __tsan_init() {}
 void __tsan_func_entry(void*) {}
 void __tsan_func_exit() {}
 #define XV_RW(n) \
-  void __tsan_read##n(void* a) { chk(a, "rd"); } \
-  void __tsan_write##n(void* a) { chk(a, "wr"); }
+  void __tsan_read##n(void* a) { chk(a, "rd"); race_access(a, n, 0, __builtin_return_address(0)); } \
+  void __tsan_write##n(void* a) { chk(a, "wr"); race_access(a, n, 1, __builtin_return_address(0)); }
 XV_RW(1) XV_RW(2) XV_RW(4) XV_RW(8) XV_RW(16)
-void __tsan_unaligned_read2(void* a) { chk(a, "rd"); }
-void __tsan_unaligned_read4(void* a) { chk(a, "rd"); }
-void __tsan_unaligned_read8(void* a) { chk(a, "rd"); }
-void __tsan_unaligned_read16(void* a) { chk(a, "rd"); }
-void __tsan_unaligned_write2(void* a) { chk(a, "wr"); }
-void __tsan_unaligned_write4(void* a) { chk(a, "wr"); }
-void __tsan_unaligned_write8(void* a) { chk(a, "wr"); }
-void __tsan_unaligned_write16(void* a) { chk(a, "wr"); }
-void __tsan_vptr_update(void** a, void*) { chk(a, "wr"); }
-void __tsan_vptr_read(void** a) { chk(a, "rd"); }
-void __tsan_read_range(void* a, unsigned long n) { chk(a, "rd"); if (n > 1) chk((char*)a + n - 1, "rd"); }
-void __tsan_write_range(void* a, unsigned long n) { chk(a, "wr"); if (n > 1) chk((char*)a + n - 1, "wr"); }
+void __tsan_unaligned_read2(void* a) { chk(a, "rd"); race_access(a, 2, 0, __builtin_return_address(0)); }
+void __tsan_unaligned_read4(void* a) { chk(a, "rd"); race_access(a, 4, 0, __builtin_return_address(0)); }
+void __tsan_unaligned_read8(void* a) { chk(a, "rd"); race_access(a, 8, 0, __builtin_return_address(0)); }
+void __tsan_unaligned_read16(void* a) { chk(a, "rd"); race_access(a, 16, 0, __builtin_return_address(0)); }
+void __tsan_unaligned_write2(void* a) { chk(a, "wr"); race_access(a, 2, 1, __builtin_return_address(0)); }
+void __tsan_unaligned_write4(void* a) { chk(a, "wr"); race_access(a, 4, 1, __builtin_return_address(0)); }
+void __tsan_unaligned_write8(void* a) { chk(a, "wr"); race_access(a, 8, 1, __builtin_return_address(0)); }
+void __tsan_unaligned_write16(void* a) { chk(a, "wr"); race_access(a, 16, 1, __builtin_return_address(0)); }
+void __tsan_vptr_update(void** a, void*) { chk(a, "wr"); race_access(a, 8, 1, __builtin_return_address(0)); }
+void __tsan_vptr_read(void** a) { chk(a, "rd"); race_access(a, 8, 0, __builtin_return_address(0)); }
+void __tsan_read_range(void* a, unsigned long n) { chk(a, "rd"); if (n > 1) chk((char*)a + n - 1, "rd"); race_access(a, n, 0, __builtin_return_address(0)); }
+void __tsan_write_range(void* a, unsigned long n) { chk(a, "wr"); if (n > 1) chk((char*)a + n - 1, "wr"); race_access(a, n, 1, __builtin_return_address(0)); }
 
 #define XV_ATOM(bits, T) \
   T __tsan_atomic##bits##_load(const volatile T* a, int mo) { \
     if (bits == 8 && mo == 2 && !in_arena((const void*)a) && __atomic_load_n(a, __ATOMIC_SEQ_CST) == (T)1) return (T)1; /* set guard variable of a function-local static: not an access of the code under test */ \
     sched_point(K_READ, (const void*)a, 0); chk((const void*)a, "ald"); \
-    T v = __atomic_load_n(a, __ATOMIC_SEQ_CST); \
+    T v = __atomic_load_n(a, __ATOMIC_SEQ_CST); race_atomic((const void*)a, sizeof(T), RA_LOAD, mo, __builtin_return_address(0)); \
     step_ev("ld", (const void*)a, (uint64_t)v, mo, 1, __builtin_return_address(0)); \
     after_access(K_READ, (const void*)a, (uint64_t)v); return v; } \
   void __tsan_atomic##bits##_store(volatile T* a, T v, int mo) { \
     sched_point(K_WRITE, (const void*)a, 0); chk((const void*)a, "ast"); \
-    __atomic_store_n(a, v, __ATOMIC_SEQ_CST); \
+    __atomic_store_n(a, v, __ATOMIC_SEQ_CST); race_atomic((const void*)a, sizeof(T), RA_STORE, mo, __builtin_return_address(0)); \
     step_ev("st", (const void*)a, (uint64_t)v, mo, 1, __builtin_return_address(0)); \
     after_access(K_WRITE, (const void*)a, (uint64_t)v); } \
   T __tsan_atomic##bits##_exchange(volatile T* a, T v, int mo) { \
     sched_point(K_WRITE, (const void*)a, 0); chk((const void*)a, "arm"); \
-    T o = __atomic_exchange_n(a, v, __ATOMIC_SEQ_CST); \
+    T o = __atomic_exchange_n(a, v, __ATOMIC_SEQ_CST); race_atomic((const void*)a, sizeof(T), RA_RMW, mo, __builtin_return_address(0)); \
     step_ev("xchg", (const void*)a, (uint64_t)o, mo, 1, __builtin_return_address(0)); \
     after_access(K_WRITE, (const void*)a, (uint64_t)v); return o; } \
   T __tsan_atomic##bits##_fetch_add(volatile T* a, T v, int mo) { \
     sched_point(K_WRITE, (const void*)a, 0); chk((const void*)a, "arm"); \
-    T o = __atomic_fetch_add(a, v, __ATOMIC_SEQ_CST); \
+    T o = __atomic_fetch_add(a, v, __ATOMIC_SEQ_CST); race_atomic((const void*)a, sizeof(T), RA_RMW, mo, __builtin_return_address(0)); \
     step_ev("faa", (const void*)a, (uint64_t)o, mo, 1, __builtin_return_address(0)); \
     after_access(K_WRITE, (const void*)a, (uint64_t)v); return o; } \
   T __tsan_atomic##bits##_fetch_sub(volatile T* a, T v, int mo) { \
     sched_point(K_WRITE, (const void*)a, 0); chk((const void*)a, "arm"); \
-    T o = __atomic_fetch_sub(a, v, __ATOMIC_SEQ_CST); \
+    T o = __atomic_fetch_sub(a, v, __ATOMIC_SEQ_CST); race_atomic((const void*)a, sizeof(T), RA_RMW, mo, __builtin_return_address(0)); \
     step_ev("fas", (const void*)a, (uint64_t)o, mo, 1, __builtin_return_address(0)); \
     after_access(K_WRITE, (const void*)a, (uint64_t)v); return o; } \
   T __tsan_atomic##bits##_fetch_or(volatile T* a, T v, int mo) { \
     sched_point(K_WRITE, (const void*)a, 0); chk((const void*)a, "arm"); \
-    T o = __atomic_fetch_or(a, v, __ATOMIC_SEQ_CST); \
+    T o = __atomic_fetch_or(a, v, __ATOMIC_SEQ_CST); race_atomic((const void*)a, sizeof(T), RA_RMW, mo, __builtin_return_address(0)); \
     step_ev("for", (const void*)a, (uint64_t)o, mo, 1, __builtin_return_address(0)); \
     after_access(K_WRITE, (const void*)a, (uint64_t)v); return o; } \
   T __tsan_atomic##bits##_fetch_and(volatile T* a, T v, int mo) { \
     sched_point(K_WRITE, (const void*)a, 0); chk((const void*)a, "arm"); \
-    T o = __atomic_fetch_and(a, v, __ATOMIC_SEQ_CST); \
+    T o = __atomic_fetch_and(a, v, __ATOMIC_SEQ_CST); race_atomic((const void*)a, sizeof(T), RA_RMW, mo, __builtin_return_address(0)); \
     step_ev("fand", (const void*)a, (uint64_t)o, mo, 1, __builtin_return_address(0)); \
     after_access(K_WRITE, (const void*)a, (uint64_t)v); return o; } \
   T __tsan_atomic##bits##_fetch_xor(volatile T* a, T v, int mo) { \
     sched_point(K_WRITE, (const void*)a, 0); chk((const void*)a, "arm"); \
-    T o = __atomic_fetch_xor(a, v, __ATOMIC_SEQ_CST); \
+    T o = __atomic_fetch_xor(a, v, __ATOMIC_SEQ_CST); race_atomic((const void*)a, sizeof(T), RA_RMW, mo, __builtin_return_address(0)); \
     step_ev("fxor", (const void*)a, (uint64_t)o, mo, 1, __builtin_return_address(0)); \
     after_access(K_WRITE, (const void*)a, (uint64_t)v); return o; } \
-  int __tsan_atomic##bits##_compare_exchange_strong(volatile T* a, T* c, T v, int mo, int) { \
+  int __tsan_atomic##bits##_compare_exchange_strong(volatile T* a, T* c, T v, int mo, int fmo) { \
     sched_point(K_WRITE, (const void*)a, 0); chk((const void*)a, "arm"); \
     T before = *c; \
     int ok = __atomic_compare_exchange_n(a, c, v, 0, __ATOMIC_SEQ_CST, __ATOMIC_SEQ_CST); \
+    race_atomic((const void*)a, sizeof(T), ok ? RA_RMW : RA_LOAD, ok ? mo : fmo, __builtin_return_address(0)); \
     step_ev("cas", (const void*)a, (uint64_t)(ok ? before : *c), mo, ok, __builtin_return_address(0)); \
     after_access(ok ? K_WRITE : K_READ, (const void*)a, (uint64_t)*c); return ok; } \
-  int __tsan_atomic##bits##_compare_exchange_weak(volatile T* a, T* c, T v, int mo, int) { \
+  int __tsan_atomic##bits##_compare_exchange_weak(volatile T* a, T* c, T v, int mo, int fmo) { \
     sched_point(K_WRITE, (const void*)a, 0); chk((const void*)a, "arm"); \
     T before = *c; \
     int ok = __atomic_compare_exchange_n(a, c, v, 0, __ATOMIC_SEQ_CST, __ATOMIC_SEQ_CST); \
+    race_atomic((const void*)a, sizeof(T), ok ? RA_RMW : RA_LOAD, ok ? mo : fmo, __builtin_return_address(0)); \
     step_ev("cas", (const void*)a, (uint64_t)(ok ? before : *c), mo, ok, __builtin_return_address(0)); \
     after_access(ok ? K_WRITE : K_READ, (const void*)a, (uint64_t)*c); return ok; }
 XV_ATOM(8, uint8_t) XV_ATOM(16, uint16_t) XV_ATOM(32, uint32_t) XV_ATOM(64, uint64_t)
 
 void __tsan_atomic_thread_fence(int mo) {
-  sched_point(K_FENCE, nullptr, 0);
+  sched_point(K_FENCE, nullptr, 0); race_fence(mo);
   step_ev("fence", nullptr, 0, mo, 1, __builtin_return_address(0));
 }
 void __tsan_atomic_signal_fence(int) {}
@@ -594,6 +725,7 @@ static void resolve_mtx() {
   } else while (st.load() != 2) {}
 }
 int pthread_mutex_lock(pthread_mutex_t* m) {
+  RaceBusy rb_;
   if (active && my_tid >= 0) {
     int me = my_tid;
     sched_point(K_MUTEX, m, 0);
@@ -604,7 +736,7 @@ int pthread_mutex_lock(pthread_mutex_t* m) {
       status[me] = BLOCKED; blocked_on[me] = m;
       int next = pick(me); switch_to(next, me);
     }
-    (*mtx_owner)[m] = me;
+    (*mtx_owner)[m] = me; race_lock(m);
     step_ev("lock", m, 0, 5, 1, __builtin_return_address(0));
     return 0;
   }
@@ -612,19 +744,22 @@ int pthread_mutex_lock(pthread_mutex_t* m) {
   return real_lock ? real_lock(m) : 0;
 }
 int pthread_mutex_trylock(pthread_mutex_t* m) {
+  RaceBusy rb_;
   if (active && my_tid >= 0) {
     sched_point(K_MUTEX, m, 0);
     if (!mtx_owner) mtx_owner = new std::map<const void*, int>();
     if (mtx_owner->count(m)) return 16; // EBUSY
-    (*mtx_owner)[m] = my_tid; return 0;
+    (*mtx_owner)[m] = my_tid; race_lock(m); return 0;
   }
   resolve_mtx();
   return real_trylock ? real_trylock(m) : 0;
 }
 int pthread_mutex_unlock(pthread_mutex_t* m) {
+  RaceBusy rb_;
   if (active && my_tid >= 0) {
     sched_point(K_MUTEX, m, 0);
     if (mtx_owner) mtx_owner->erase(m);
+    race_unlock(m);
     for (int t = 0; t < nthreads; t++) if (status[t] == BLOCKED && blocked_on[t] == m) status[t] = RUNNABLE;
     write_epoch++; allparked_rounds = 0;
     step_ev("unlock", m, 0, 5, 1, __builtin_return_address(0));
@@ -679,6 +814,7 @@ static void thread_main(int id, const std::function<void(int)>* body) {
   my_tid = id;
   track_thread();
   fwait(&gotok[id]);
+  race_thread_start(id, start_after[id]);
   (*body)(id);
 }
 
@@ -701,6 +837,7 @@ static ChildResult run_child(const std::function<Scenario(const std::string&)>& 
     mode = ctl.mode; decs = ctl.prefix; dec_depth = 0; replay_tids = ctl.tids; rnd_points = ctl.rnd_points;
     rng_state = ctl.seed * 6364136223846793005ull + 1442695040888963407ull; if (!rng_state) rng_state = 1;
     solo_at = ctl.solo_at; solo_thread = ctl.solo_thread;
+    if (race_on) race_init();
     Scenario sc = make(prog);
     nthreads = sc.nthreads;
     if (nthreads > MAXT) _exit(2);
@@ -714,7 +851,7 @@ static ChildResult run_child(const std::function<Scenario(const std::string&)>& 
     active = true;
     { int first = pick(-1); cur = first; if (first >= 0) fwake(&gotok[first]); }
     for (auto& t : th) t.join();
-    active = false;
+    active = false; race_join_all(nthreads);
     if (sc.finish) sc.finish();
     finish_child("ok", 0);
   }
@@ -775,6 +912,7 @@ int explore_main(int argc, char** argv, const std::function<Scenario(const std::
     else if (a == "--solo-thread") r_solo_thread = atoi(next().c_str());
     else if (a == "--weak") weakW = atoi(next().c_str());
     else if (a == "--time-budget") time_budget = atof(next().c_str());
+    else if (a == "--race") race_on = true;
     else { fprintf(stderr, "xvrt: unknown option %s\n", a.c_str()); return 2; }
   }
   if (progs.empty() && modes != "replay") { fprintf(stderr, "xvrt: no programs\n"); return 2; }
